@@ -709,14 +709,24 @@ async def _timer(
         if state.done and state.counts.failure:
             memory.forever_stopped.add(handler.id)
 
+        # An API error here (beyond the retries of the request itself) must not end the timer:
+        # the task would count as "exited on its own" and never be started again for this object.
+        # Keep the undelivered patch --- it goes with the next run's one --- and stay on schedule.
         progression.deliver_results(outcomes=outcomes, patch=patch)
-        _, remaining_patch = await application.patch_and_check(
-            settings=settings,
-            resource=resource,
-            logger=logger,
-            patch=patch,
-            body=body,
-        )
+        try:
+            _, remaining_patch = await application.patch_and_check(
+                settings=settings,
+                resource=resource,
+                logger=logger,
+                patch=patch,
+                body=body,
+            )
+        except asyncio.CancelledError:
+            raise
+        except Exception as e:
+            logger.warning(f"{handler} could not store its results/progress and will retry "
+                           f"with the next run: {e!r}")
+            remaining_patch = patch
         patch = cause.patch = patches.Patch(remaining_patch, body=body)
 
         # For temporary errors, override the schedule by the one provided by errors themselves.
